@@ -25,7 +25,8 @@ fn decode_out(line: &str) -> Option<(Option<u8>, Vec<Item>)> {
     match rlp::decode(body).ok()? { Item::List(l) => Some((ty, l)), _ => None }
 }
 pub fn run(ctx: &Ctx) {
-    let curve = Curve::new(); let ids = chain_alphabet();
+    let curve = Curve::new(); let mut ids = chain_alphabet();
+    if ctx.thorough() { for k in [7usize, 8, 15, 16, 31, 33, 53, 63, 64, 65, 127, 128, 129, 191, 192, 200, 248, 253, 254] { ids.push(("2^k", Some(Some(Nat::pow2(k))))); ids.push(("2^k-1", Some(Some(Nat::pow2(k).sub(&Nat::from_u64(1)))))); } }
     let keys = [key_of(&curve, GANACHE, "", &default_path(0)), key_of(&curve, GANACHE, "", &default_path(1))];
     let n = (3 * ids.len() * 2 * 2 * 2 * 2 * 2) as u64;
     ctx.sweep("sign-transaction-matrix", "kind {legacy, 2930, 1559} x chainId {absent, null, 0, 1, 2^32, 2^64-1, 2^128+5, cmax=(2^256-37)/2, and cmax+1, cmax+2, 2^255, 2^256-1 which may be refused but never signed with a wrapped v} x --allow-missing-relay-protection {off, on} x --signature-only {off, on} x target parity {0, 1} x 2 accounts x 2 builds", n, |i| {
